@@ -15,6 +15,7 @@ func init() {
 	vrt.Register("C02_string_literal", StringLiteral)
 	vrt.Register("C02_bstring_literal", BStringLiteral)
 	vrt.Register("C02_tags_in_blocks", TagsInBlocks)
+	vrt.Register("C02_escape_sequences", EscapeSequences)
 }
 
 // part of a template: literal text (symbolic) or a tag with a known value.
@@ -300,4 +301,33 @@ func TagsInBlocks() {
 	vrt.Assert(err == nil, "a well-formed template renders")
 	vrt.Assert(got == want, "inside a block: output = literal text + values of output tags, in order")
 	vrt.Cover("rendered")
+}
+
+// longer texts built from the pieces the scanner reacts to (enumerated), with one
+// arbitrary byte in between: every combination of the two escapes within one
+// run of literal text, before and after a live tag
+var chunks = []string{"\\<%", "\\\\", "\\", "<", "%", "x"}
+
+func chunkText(k int) string {
+	s := ""
+	n := vrt.IntRange(0, k)
+	for i := 0; i < n; i++ {
+		s += chunks[vrt.Choice(len(chunks))]
+	}
+	return s
+}
+
+func EscapeSequences() {
+	k := 2 + vrt.Tier()
+	s0 := chunkText(k) + vrt.Bytes(vrt.IntRange(0, 1)) + chunkText(1)
+	noNUL(s0)
+	t1 := tags[vrt.Choice(2)]
+	s1 := chunkText(1 + vrt.Tier())
+	parts := []part{{text: s0}, t1, {text: s1}}
+	if vrt.Bool() {
+		// inside a block
+		parts = append([]part{{"<%= if (true) { %>", true, ""}}, parts...)
+		parts = append(parts, part{"<% } %>", true, ""})
+	}
+	check(parts)
 }
